@@ -62,6 +62,14 @@ FAM = {
 }
 
 
+FLAGS = {"False": False, "True": True, "np.False_": np.False_, "0": 0, "np.True_": np.True_}
+
+
+def flag(v):
+    """cfg stores the flag by name (JSON-able); the call receives the object"""
+    return FLAGS[v] if isinstance(v, str) else v
+
+
 def mkwarn(i):
     return EEMeterWarning(qualified_name=f"eemeter.sufficiency_criteria.dq{i}", description="d", data={})
 
@@ -173,7 +181,7 @@ def scenario_fit(fam, cfg, metric):
             len(data.warnings) == len(w_snapshot) and all(a is b for a, b in zip(data.warnings, w_snapshot))
         return dict(data_unchanged=same, data_dq_after=[w.qualified_name for w in data.disqualification], data_warn_after=[w.qualified_name for w in data.warnings])
     try:
-        r = m.fit(data, ignore_disqualification=cfg["ignore"])
+        r = m.fit(data, ignore_disqualification=flag(cfg["ignore"]))
     except Exception as ex:
         return dict(kind="raise", exc=type(ex).__name__, model_dq=None, returned_self=False, **data_state())
     names = [w.qualified_name for w in m.disqualification]
@@ -194,7 +202,7 @@ def scenario_predict(fam, cfg):
     m._predict = lambda *a, **k: SENTINEL
     data = pick_data(fam, cfg["role"], 0, cfg["tz_data"])
     try:
-        r = m.predict(data, ignore_disqualification=cfg["ignore"])
+        r = m.predict(data, ignore_disqualification=flag(cfg["ignore"]))
     except Exception as ex:
         return dict(kind="raise", exc=type(ex).__name__)
     return dict(kind="return", exc=None, is_frame=(r == SENTINEL))
@@ -206,7 +214,7 @@ def expect_fit(fam, cfg):
     """returns (must_raise: None|set of exception names, ...) ignoring the metric"""
     if cfg["role"] != "baseline":
         return {"TypeError"}
-    if cfg["ndq"] > 0 and not cfg["ignore"]:
+    if cfg["ndq"] > 0 and not flag(cfg["ignore"]):
         return {"DataSufficiencyError"}
     if fam == "hourly" and cfg["features"] == "ghi" and not cfg["ghi_cols"]:
         return {"ValueError"}
@@ -232,7 +240,7 @@ def poor_fit_concrete(fam, metric):
 def expect_predict(fam, cfg):
     """(may_return, must_be_dme)"""
     guards_ok = cfg["fitted"] and cfg["tz_model"] == cfg["tz_data"] and cfg["role"] in ("baseline", "reporting") and not cfg.get("missing_feature")
-    blocked = cfg["ndq"] > 0 and not cfg["ignore"]
+    blocked = cfg["ndq"] > 0 and not flag(cfg["ignore"])
     return (guards_ok and not blocked), (guards_ok and blocked)
 
 
@@ -276,7 +284,7 @@ def judge_predict(fam, cfg, r):
         return True  # fail-open
     if must_dme:
         return r["exc"] != "DisqualifiedModelError"
-    return r["exc"] == "DisqualifiedModelError" and not (cfg["ndq"] > 0 and not cfg["ignore"])
+    return r["exc"] == "DisqualifiedModelError" and not (cfg["ndq"] > 0 and not flag(cfg["ignore"]))
 
 
 def replay_persist_hourly(inp):
@@ -362,7 +370,15 @@ def replay_persistfit(inp):
         m.fit(data, ignore_disqualification=ignore_fit)
     except DataSufficiencyError:
         return False, "fit refused (nothing to store)"
+    if inp.get("refused_after"):
+        # a later fit of the same object on a disqualified baseline of another zone is refused: the model stays the fit it was
+        try:
+            m.fit(pick_data(fam, "baseline", 1, "Asia/Tokyo"), ignore_disqualification=False)
+            return True, "fit on a disqualified baseline was not refused"
+        except DataSufficiencyError:
+            pass
     rep = pick_data(fam, "reporting", 0, "US/Pacific")
+    rep_other = pick_data(fam, "reporting", 0, "Asia/Tokyo")
 
     def verdict(model):
         model._predict = lambda *a, **k: SENTINEL
@@ -376,6 +392,13 @@ def replay_persistfit(inp):
     v1 = verdict(m)
     m2 = Model.from_json(m.to_json())
     v2 = verdict(m2)
+    for who, model in (("in memory", m), ("reloaded", m2)):
+        model._predict = lambda *a, **k: SENTINEL
+        try:
+            model.predict(rep_other, ignore_disqualification=True)
+            return True, f"{fam}: the {who} model predicts for reporting data of another timezone than its baseline's (refused later fit: {bool(inp.get('refused_after'))})"
+        except Exception:
+            pass
     n1, n2 = [w.qualified_name for w in m.disqualification], [w.qualified_name for w in m2.disqualification]
     want = "DisqualifiedModelError" if ((ndq > 0 or poor) and not ignore_predict) else "predicts"
     want_n = ndq + (1 if poor else 0)
@@ -406,7 +429,7 @@ def run_fit(case, fam):
 
     def run():
         cfg = dict(role=F.choose("role", ["baseline", "reporting"] + ROLES_FOREIGN), ndq=F.choose("ndq", list(range(maxdq + 1))),
-                   ignore=F.choose("ignore", [False, True]))
+                   ignore=F.choose("ignore", list(FLAGS)))
         nones = []
         if fam == "hourly":
             cfg["ghi_cols"] = F.choose("ghi_cols", [False, True])
@@ -468,7 +491,7 @@ def run_predict(case, fam):
     tzs = TZS + (["Europe/London"] if case.tier == "thorough" else [])
 
     def run():
-        cfg = dict(fitted=F.choose("fitted", [True, False]), ndq=F.choose("ndq", list(range(maxdq + 1))), ignore=F.choose("ignore", [False, True]),
+        cfg = dict(fitted=F.choose("fitted", [True, False]), ndq=F.choose("ndq", list(range(maxdq + 1))), ignore=F.choose("ignore", ["False", "True", "np.False_", "0"]),
                    tz_model=F.choose("tz_model", tzs), tz_data=F.choose("tz_data", tzs), role=F.choose("role", ["reporting", "baseline"] + ROLES_FOREIGN))
         if fam == "hourly":
             cfg["missing_feature"] = F.choose("missing_feature", [False, True])
@@ -493,7 +516,7 @@ def run_predict(case, fam):
                 case.prove(p, r["kind"] == "raise" and r["exc"] == "DisqualifiedModelError", "DisqualifiedModelError when the model is disqualified and not overridden", replay=rp)
                 case.regime("predict refused (DisqualifiedModelError)")
             elif r["kind"] == "raise":
-                case.prove(p, not (r["exc"] == "DisqualifiedModelError" and not (cfg["ndq"] > 0 and not cfg["ignore"])),
+                case.prove(p, not (r["exc"] == "DisqualifiedModelError" and not (cfg["ndq"] > 0 and not flag(cfg["ignore"]))),
                            "DisqualifiedModelError only for a disqualified, non-overridden model", replay=rp)
             case.regime("timezone mismatch", cfg["tz_model"] != cfg["tz_data"])
             case.regime("foreign data class", cfg["role"] == "foreign")
@@ -509,7 +532,8 @@ def run_persistfit(case, fam):
 
     def run():
         inp = dict(fam=fam, ndq=F.choose("ndq", [0, 1, 2]), ignore_fit=True, poor=F.choose("poor", [False, True]),
-                   ignore_predict=F.choose("ignore_predict", [False, True]), prior=F.choose("prior", ["none", "good", "poor"]))
+                   ignore_predict=F.choose("ignore_predict", [False, True]), prior=F.choose("prior", ["none", "good", "poor"]),
+                   refused_after=F.choose("refused_after", [False, True]))
         return inp, replay_persistfit(inp)
 
     paths = case.explore(run)
